@@ -69,6 +69,7 @@ type dServer struct {
 	log  []invocation
 	keep map[int]bool
 	spec dServerSpec
+	mid  func(j int) // when set: called before the j-th follow-on command is sent, after every earlier command has entered its handler
 }
 
 func newDServer(spec dServerSpec) *dServer {
@@ -229,7 +230,30 @@ func dConnVC(d *dServer, cl dClient, cache *security.SessionCache, first int, fo
 			advert = neg.ValidCommands
 		}
 		a, e = neg.Authentication, cst.IsEncrypted()
-		for _, c := range follow {
+		for j, c := range follow {
+			if d.mid != nil {
+				// one command at a time: the previous command is inside (or past) its handler, i.e. its
+				// admission was decided, before anything changes and before the next one is sent
+				ended := false
+				for dl := time.Now().Add(dHonestBound); time.Now().Before(dl); {
+					select {
+					case <-done:
+						ended = true
+					default:
+					}
+					d.mu.Lock()
+					n := len(d.log)
+					d.mu.Unlock()
+					if ended || n >= sent {
+						break
+					}
+					time.Sleep(50 * time.Microsecond)
+				}
+				if ended {
+					break
+				}
+				d.mid(j)
+			}
 			m := message.NewMessageForStream(cst)
 			if m.PutInt(ctx, c) != nil || m.FinishMessage(ctx) != nil {
 				break
@@ -334,7 +358,7 @@ func dRaw(d *dServer, cmd int) string {
 }
 
 func runDispatch(c *Ctx) error {
-	c.Res.Rule = "a real server.Server with 4 authenticated commands carrying different per-command policies (optional / auth+enc required / integrity required / auth required) and authorization levels, 1 raw command and an authorizer table that varies between cases; real clients of four kinds (authenticated+encrypted, unauthenticated+encrypted, authenticated+plaintext, neither); every command sequence of length <=3 (quick) / <=4 (thorough) over the command set incl. unknown and raw numbers on one connection with every keep-alive pattern sampled, then (optionally after a reconfiguration of the server: another authorizer table, the permissive command raised to authentication REQUIRED) reconnect with a different command, resuming through the client's cache or by naming the session id explicitly; raw path probed with every command; observable = handlers invoked in order (with the stream's real encryption state and the session's flags at entry) and the connection closed; distinct by (spec, client, sequence); non-trivial = sequence length >=2 or client not fully secured"
+	c.Res.Rule = "a real server.Server with 4 authenticated commands carrying different per-command policies (optional / auth+enc required / integrity required / auth required) and authorization levels, 1 raw command and an authorizer table that varies between cases; real clients of four kinds (authenticated+encrypted, unauthenticated+encrypted, authenticated+plaintext, neither); every command sequence of length <=3 (quick) / <=4 (thorough) over the command set incl. unknown and raw numbers on one connection with every keep-alive pattern sampled, then (optionally after a reconfiguration of the server: another authorizer table, the permissive command raised to authentication REQUIRED) reconnect with a different command, resuming through the client's cache or by naming the session id explicitly; raw path probed with every command; reconfiguration DURING a kept-alive connection (follow-on commands sent one at a time, the authorizer table / the admitted command's level changed before the n-th, the admitted command repeated: every command judged by the configuration in force when it arrives; model serveAuthSw); observable = handlers invoked in order (with the stream's real encryption state and the session's flags at entry) and the connection closed; distinct by (spec, client, sequence); non-trivial = sequence length >=2 or client not fully secured"
 	var cases []Case
 	cmds := []int{7, 8, 10, 11, 9, 99} // 9 raw, 99 unknown
 	specs := []dServerSpec{
@@ -588,6 +612,110 @@ func runDispatch(c *Ctx) error {
 					c.Sample(map[string]any{"ops": ops, "real": real})
 				}
 			}
+		}
+		// ---- reconfiguration DURING a kept-alive connection: the first n commands arrive under the spec, the
+		// server's authorizer / a level then changes, the remaining follow-on commands (the same command
+		// again among them) arrive under the new one.  Every command is judged by the configuration in
+		// force when it arrives: an admission decided earlier on the connection must not be remembered.
+		midN := 16
+		if c.Thorough() {
+			midN = 40
+		}
+		for k := 0; k < midN; k++ {
+			d := newDServer(spec)
+			cl := clients[0]
+			if k%3 == 2 {
+				cl = clients[c.Rng.Intn(len(clients))]
+			}
+			keep := map[int]bool{}
+			var keepL []int
+			for _, x := range authCmds {
+				if c.Rng.Intn(6) != 0 {
+					keep[x] = true
+					keepL = append(keepL, x)
+				}
+			}
+			d.mu.Lock()
+			d.keep = keep
+			d.mu.Unlock()
+			first := pick(c, authCmds)
+			var follow []int
+			for n := 1 + c.Rng.Intn(3); n > 0; n-- {
+				if c.Rng.Intn(2) == 0 {
+					follow = append(follow, first) // the command already admitted on this connection, again
+				} else {
+					follow = append(follow, pick(c, cmds))
+				}
+			}
+			at := 1 + c.Rng.Intn(len(follow))
+			alt := specs[c.Rng.Intn(len(specs))]
+			now := dServerSpec{base: spec.base, cmds: spec.cmds, pol: map[int]dPolicy{}, perms: spec.perms, raw: spec.raw, authz: alt.authz}
+			for kk, v := range spec.pol {
+				now.pol[kk] = v
+			}
+			switch c.Rng.Intn(3) {
+			case 0:
+				now.pol[first] = dPolicy{"R", "R", "O"} // the admitted command now mandates authentication and encryption
+			case 1:
+				if spec.authz != nil {
+					now.authz = map[string][]string{} // every permission revoked
+				}
+			}
+			d.mid = func(j int) {
+				if j+1 == at {
+					d.setSpec(now)
+				}
+			}
+			ops := []string{spec.line(), "stage" + strings.TrimPrefix(now.line(), "server")}
+			real := []string{"ok", "ok"}
+			evs, a, e, hsOK, _, closed, _, advert := dConnVC(d, cl, security.NewSessionCache(), first, follow, "")
+			d.mid = nil
+			r := "ok hs-failed"
+			vcTok, _ := dVC(advert)
+			if hsOK {
+				r = fmt.Sprintf("ok a=%s e=%s vc=%s %s", b01(a), b01(e), vcTok, evs)
+			}
+			ops = append(ops, fmt.Sprintf("connsw at=%d cauth=%s cenc=%s cmethods=%s cciphers=%s user=root first=%d follow=%s keep=%s", at, cl.auth, cl.enc, joinOrDash(cl.methods), joinOrDash(cl.ciphers), first, ints(follow), ints(keepL)))
+			real = append(real, r)
+			c.Count("midconn-reconfig")
+			d.mu.Lock()
+			log := append([]invocation{}, d.log...)
+			d.mu.Unlock()
+			for idx, inv := range log {
+				sp, pre := spec, "midconn-before:"
+				if idx >= at {
+					sp, pre = now, "midconn-after:"
+					c.Count("midconn-ran-after-switch")
+				}
+				p := sp.polOf(inv.cmd)
+				viol := func(kk, what string) {
+					c.Violate(Violation{Property: "C05", Key: "C05:" + pre + kk, What: what, Ops: append([]string{}, ops...), Expected: "handler not invoked", Observed: fmt.Sprintf("command #%d %+v", idx, inv)})
+				}
+				if p.a == "R" && !(a && inv.auth) {
+					viol("auth-required-unauthenticated", "a command that mandates authentication (under the configuration in force when it arrived) ran on a session that is not authenticated")
+				}
+				if (p.e == "R" || p.i == "R") && !inv.encrypted {
+					viol("enc-required-plaintext", "a command that mandates encryption/integrity (under the configuration in force when it arrived) ran on a plaintext stream")
+				}
+				if sp.authz != nil {
+					okz := false
+					for _, perm := range sp.perms[inv.cmd] {
+						for _, u := range sp.authz[perm] {
+							if u == "*" || u == inv.user {
+								okz = true
+							}
+						}
+					}
+					if !okz {
+						viol("not-authorized", "a command ran for an identity that was not authorized at any of its levels when the command arrived (the permission had been revoked earlier on the same connection)")
+					}
+				}
+			}
+			if hsOK && !closed {
+				c.Violate(Violation{Property: "C05", Key: "C05:midconn:left-open", What: "the dispatch ended but the server did not close the connection", Ops: ops, Expected: "closed", Observed: evs})
+			}
+			c.Distinct(fmt.Sprintf("mid|%d|%d|%d|%v|%d|%v", si, k, first, follow, at, keepL), true)
+			cases = append(cases, Case{Label: fmt.Sprintf("dispatch midconn spec%d %d %v at=%d", si, first, follow, at), Ops: ops, Real: real})
 		}
 		// raw path with every command
 		for _, x := range cmds {
